@@ -882,13 +882,14 @@ public:
 
         if(_clearProps) {
             clear_all_props();
-        } else {
-            // Resize props
-            resize_vprops(0u);
-            resize_eprops(0u);
-            resize_fprops(0u);
-            resize_cprops(0u);
         }
+        // Resize props: properties that are still referenced stay tracked
+        // (clear_all_props() only anonymizes them), so they must follow the
+        // entity counts in both cases.
+        resize_vprops(0u);
+        resize_eprops(0u);
+        resize_fprops(0u);
+        resize_cprops(0u);
     }
 
     //=====================================================================
